@@ -19,6 +19,7 @@ RULE = ('string literals: each of the 256 byte values alone, every ordered pair 
         'arrays of every length 0..40, global and local, const and mutable, with boundary element values (bool arrays bit by bit); word sizes 2,3,4; '
         'a case is one constant in one program; all cases non-trivial; distinct by (bytes, usage)')
 ASSUMPTIONS = common.ISA_ASSUMPTIONS[:3] + ['.ascii / character immediates use the escapes \\\\ \\" \\\' \\n \\r \\t \\0 \\a \\b \\f \\v \\xHH']
+REQUIRED_HIDC_FUNCTIONS = ['codegen/asm:_escape_bytes', 'codegen/generator:CodeGen.pack_bools', 'codegen/generator:CodeGen.label_for_string']     # M-COV: deciding code never entered => inconclusive
 MIN_NONTRIVIAL = {'quick': 2500, 'thorough': 9000}
 HOSTILE = [0x5c, 0x22, 0x27, 0x3b, 0x0a, 0x0d, 0x00, 0x7f, 0x80, 0xff, 0x7b, 0x7d, 0x5b, 0x5d, 0x25, 0x2e, 0x2c, 0x20, 0x09, 0x07, 0x08, 0x0b, 0x0c,
            0x1b, 0x24, 0x23, 0x40, 0x21, 0x3a, 0x2f, 0x2a, 0x61, 0x78, 0x6e, 0x30, 0x39, 0xc3, 0xa9, 0xe2, 0xfe]
@@ -30,6 +31,7 @@ def plan(tier, seed):
     specs += [{'kind': 'pairs', 'part': i, 'parts': 4, 'word': 2 + i % 3} for i in range(4)]
     specs += [{'kind': 'chars', 'word': w} for w in (2, 4)]
     specs += [{'kind': 'arrays', 'part': i, 'parts': 4, 'word': 2 + i % 3, 'seed': seed} for i in range(4)]
+    specs += [{'kind': 'collisions', 'word': w} for w in (2, 3)]
     n, per = (4, 60) if tier == 'quick' else (16, 250)
     for j in range(n):
         specs.append({'kind': 'random', 'seed': seed * 1000 + j, 'count': per})
@@ -200,6 +202,43 @@ def run_shard(spec):
                 run_expect(res, src, [], word, bytes(exp), f'constant {el} arrays of length {n}', [runner.case_id('array', el, n, word, w) for w in 'abcd'])
         res['exhaustive'] = True
         res['samples'].append({'arrays': 'const/mutable x global/local arrays of int, byte, bool, string, lengths 0..40'})
+    elif k == 'collisions':
+        # several constant tables in ONE program whose emitted rows or values coincide although element type,
+        # length or constness differ: each must still be its own array (sharing / caching of constant data)
+        word = spec['word']
+        seqs = [[1, 0, 1], [1, 1], [3], [0], [0, 0, 0], [1], [1, 0, 0], [2, 3, 5, 7], [0, 0, 0, 0, 0, 0, 0, 0, 1], [1, 0, 0, 0, 0, 0, 0, 0, 0], [65, 66], []]
+        for order in (('int', 'byte', 'bool'), ('bool', 'byte', 'int'), ('byte', 'bool', 'int')):
+            gl, body, exp = [], [], bytearray()
+            idx = 0
+            for seq in seqs:
+                for el in order:
+                    if el == 'bool' and any(v > 1 for v in seq):
+                        continue
+                    idx += 1
+                    lit = {'int': str, 'byte': str, 'bool': lambda v: 'true' if v else 'false'}[el]
+                    text = '[' + ', '.join(lit(v) for v in seq) + ']'
+                    for where, const in (('g', True), ('g', False), ('l', True)):
+                        nm = f'{where}{idx}{"c" if const else "m"}'
+                        decl = f'{"const " if const else ""}{el}[] {nm} = {text};'
+                        (gl if where == 'g' else body).append(decl)
+                        if el == 'bool':
+                            show = f"if ({nm}[i]) {{ write('1'); }} else {{ write('0'); }}"
+                            exps = b''.join(b'1' if v else b'0' for v in seq)
+                        else:
+                            show = f"write({nm}[i] is int); write(',');" if el == 'byte' else f"write({nm}[i]); write(',');"
+                            exps = b''.join(str(v).encode() + b',' for v in seq)
+                        body.append(f"write({nm}.length); write(':'); for (int i = 0; i < {nm}.length; i += 1) {{ {show} }} write('|');")
+                        exp += str(len(seq)).encode() + b':' + exps + b'|'
+                        if el == 'byte' and const:
+                            body.append(f'write({nm}); write(\'|\');')
+                            exp += bytes(seq) + b'|'
+            # strings whose bytes coincide with byte tables, and equal strings
+            for sidx, sb in enumerate([b'AB', b'\x01\x00\x01', b'AB', b'']):
+                body.append(f'write("{render_bytes(sb, chr(34))}"); write("{render_bytes(sb, chr(34))}".length); write(\'|\');')
+                exp += sb + str(len(sb)).encode() + b'|'
+            src = '\n'.join(gl) + '\nempty @is_you() {\n    ' + '\n    '.join(body) + '\n}\n'
+            run_expect(res, src, [], word, bytes(exp), f'coinciding constant tables, order {order}', [runner.case_id('coll', order, word, i) for i in range(idx)])
+        res['exhaustive'] = True
     else:
         for i in range(spec['count']):
             strings = []
